@@ -371,12 +371,15 @@ func tablesRun(c *harness.C, variant string, r *explore.Recorder) *kgOut {
 		})
 		payload := append([]byte{255}, []byte{s.ClassBcast, 1, 7}...)
 		ack := append([]byte{1, 0, 3}, world.Sha([]byte{s.ClassBcast, 1, 7})...)
+		p2p := []byte{255, s.ClassP2P, 0, 'x'}
 		sc.Go("D2", func() {
 			p.HandleMessage(&tss.IncMessage{Data: payload, Source: src2, MsgType: 2, Topic: topic})
 			p.HandleMessage(&tss.IncMessage{Data: []byte{1}, Source: src2, MsgType: 1, Topic: topic})
 			p.HandleMessage(&tss.IncMessage{Data: ack, Source: src2, MsgType: 2, Topic: topic})
+			p.HandleMessage(&tss.IncMessage{Data: p2p, Source: src2, MsgType: 2, Topic: topic})
 		})
 		sc.Go("D3", func() {
+			p.HandleMessage(&tss.IncMessage{Data: p2p, Source: src3, MsgType: 2, Topic: topic})
 			p.HandleMessage(&tss.IncMessage{Data: ack, Source: src3, MsgType: 2, Topic: topic})
 			p.HandleMessage(&tss.IncMessage{Data: payload, Source: src3, MsgType: 2, Topic: topic})
 		})
